@@ -35,6 +35,16 @@ HIST_RULE = ("message histories: 1200 (thorough 30000) random histories of 2..8 
              "composite and a tagged composite nesting a positional one")
 
 PROPS = {
+    "C11": {
+        "topics": ["marshal"],
+        "nontrivial": lambda c, i: i.startswith("ok") and i.count("ok") >= 3,
+        "rule": "the whole matrix field kind (String, Numeric, Binary, Hex) x 12 Go types (string, int, int64, []byte, pointers to these, the four library field types) x zero / non-zero x keepzero x "
+                "tag style (index, iso8583, both, F<n> name), 2 (thorough 30) values each on single-field messages, plus 300 (thorough 6000) generated message specs with one struct covering the "
+                "message, composites as pointers to nested structs to depth 3 built with reflect.StructOf; each case: Marshal into a fresh message, present set, Pack, Unmarshal into the zero value; "
+                "the oracle checks presence rules and the round trip directly and via Pack/Unpack for structs of documented types; non-trivial = distinct case that marshals, packs and unmarshals",
+        "trusted_base": MODEL_TB + ["modelled, validated by correspondence: the reflect-based loops of Message/Composite Marshal and Unmarshal, field/index_tag.go, the per-kind type switches"],
+        "assumptions": ["integers are Go ints (|z| < 2^63); nil and empty byte slices are not distinguished"],
+    },
     "C17": {
         "topics": ["specjson"],
         "nontrivial": lambda c, i: i.startswith("ok"),
